@@ -32,10 +32,30 @@ type listPkg struct {
 	Export     string
 	GoFiles    []string
 	ImportMap  map[string]string
+	ForTest    string
 }
 
-func goList(repo, pkg, tags string) (target *listPkg, exports map[string]string) {
-	cmd := exec.Command("go", "list", "-tags", tags, "-export", "-deps", "-json=ImportPath,Dir,Export,GoFiles,ImportMap", pkg)
+// overlay maps virtual paths to real files (go build -overlay format).
+var overlay = map[string]string{}
+
+func readSrc(path string) (string, error) {
+	if m, ok := overlay[path]; ok {
+		path = m
+	}
+	b, err := os.ReadFile(path)
+	return string(b), err
+}
+
+func goList(repo, pkg, tags, ov string, test bool) (target *listPkg, exports map[string]string) {
+	args := []string{"list", "-tags", tags, "-export", "-deps", "-json=ImportPath,Dir,Export,GoFiles,ImportMap,ForTest"}
+	if ov != "" {
+		args = append(args, "-overlay", ov)
+	}
+	if test {
+		args = append(args, "-test")
+	}
+	args = append(args, pkg)
+	cmd := exec.Command("go", args...)
 	cmd.Dir = repo
 	cmd.Stderr = os.Stderr
 	out, err := cmd.Output()
@@ -55,7 +75,17 @@ func goList(repo, pkg, tags string) (target *listPkg, exports map[string]string)
 			exports[p.ImportPath] = p.Export
 		}
 		pp := p
+		if test {
+			// the package recompiled for its own test: "path [path.test]", internal test files included
+			if strings.HasSuffix(p.ImportPath, ".test]") && !strings.Contains(p.ImportPath, "_test [") && p.ForTest != "" && strings.HasPrefix(p.ImportPath, p.ForTest+" [") {
+				target = &pp
+			}
+			continue
+		}
 		target = &pp // last one printed is the requested package
+	}
+	if target == nil {
+		fatalf("go list: target package not found")
 	}
 	return
 }
@@ -731,12 +761,29 @@ func main() {
 	out := flag.String("out", "", "output dir")
 	shim := flag.String("shim", "github.com/libp2p/go-libp2p/x/verif", "shim import prefix")
 	tags := flag.String("tags", "", "build tags")
+	ovFlag := flag.String("overlay", "", "overlay json (also used to read sources)")
+	test := flag.Bool("test", false, "instrument the package as recompiled for its own test (internal _test.go files included)")
 	flag.Parse()
-	target, exports := goList(*repo, *pkg, *tags)
+	if *ovFlag != "" {
+		b, err := os.ReadFile(*ovFlag)
+		if err != nil {
+			fatalf("overlay: %v", err)
+		}
+		var o struct{ Replace map[string]string }
+		if err := json.Unmarshal(b, &o); err != nil {
+			fatalf("overlay: %v", err)
+		}
+		overlay = o.Replace
+	}
+	target, exports := goList(*repo, *pkg, *tags, *ovFlag, *test)
 	fset := token.NewFileSet()
 	var files []*ast.File
 	for _, gf := range target.GoFiles {
-		f, err := parser.ParseFile(fset, filepath.Join(target.Dir, gf), nil, parser.ParseComments)
+		src, err := readSrc(filepath.Join(target.Dir, gf))
+		if err != nil {
+			fatalf("read: %v", err)
+		}
+		f, err := parser.ParseFile(fset, filepath.Join(target.Dir, gf), src, parser.ParseComments)
 		if err != nil {
 			fatalf("parse: %v", err)
 		}
@@ -754,7 +801,11 @@ func main() {
 	}
 	info := &types.Info{Types: map[ast.Expr]types.TypeAndValue{}, Uses: map[*ast.Ident]types.Object{}, Defs: map[*ast.Ident]types.Object{}}
 	conf := types.Config{Importer: importer.ForCompiler(fset, "gc", lookup), Error: func(err error) { fmt.Fprintln(os.Stderr, "typecheck:", err) }}
-	if _, err := conf.Check(target.ImportPath, fset, files, info); err != nil {
+	ipath := target.ImportPath
+	if target.ForTest != "" {
+		ipath = target.ForTest
+	}
+	if _, err := conf.Check(ipath, fset, files, info); err != nil {
 		fatalf("type check failed: %v", err)
 	}
 	if err := os.MkdirAll(*out, 0o755); err != nil {
